@@ -64,7 +64,7 @@ IsPrefix(p, w) == Len(p) <= Len(w) /\ SubSeq(w, 1, Len(p)) = p
 StartsWithOp(w) == \E p \in OpSpell : IsPrefix(p, w)
 
 (* ---- text: character order, lexicographic order, substring --------------- *)
-Order == <<"!", "-", ".", "0", "1", "2", "5", "9", "<", "=", ">", "B", "_", "a", "b", "o", "r", "s">>
+Order == <<"!", ",", "-", ".", "0", "1", "2", "5", "9", "<", "=", ">", "B", "_", "a", "b", "o", "r", "s">>
 Rank(ch) == CHOOSE i \in 1..Len(Order) : Order[i] = ch
 RECURSIVE LexLt(_, _)
 LexLt(v, w) == IF w = <<>> THEN FALSE
@@ -171,7 +171,8 @@ Case(k, op, v, vl, a, lb, rb) == [k |-> k, op |-> op, v |-> v, vl |-> vl, a |-> 
 StrAlpha == IF Wide THEN {"-", "1", "<", "=", "a", "s"} ELSE {"1", "<", "=", "a", "s"}
 StrValues == Words(StrAlpha, IF Wide THEN 3 ELSE 2)
 StrOperands == {w \in Words(StrAlpha, 2) : Len(w) >= 1 /\ ~StartsWithOp(w)}
-                 \cup { <<"a", "<", "o", "r", ">", "b">>, <<"!", "a">>, <<"s", "=">>, <<"B", "_", ".">> }
+                 \cup { <<"a", "<", "o", "r", ">", "b">>, <<"!", "a">>, <<"s", "=">>, <<"B", "_", ".">>,
+                        <<"a", ",">>, <<"a", "b", ",">>, <<",", "a">> }       \* punctuation at an end of an operand is part of it
 StrCases == {Case("str", op, v, <<>>, <<w>>, "", "") :
                op \in StrOps \cup {"", "<in>"}, v \in StrValues \cup StrOperands, w \in StrOperands}
 \* substring: longer values
